@@ -67,6 +67,9 @@ def truthy_str(s):
     return to_z3(s) != lit("")
 
 
+GENERIC = "text_font"          # record key of the generic matrix attribute (its NAME, as the code sees it, is symbolic: ANYFIELD)
+
+
 class PaginationBorders(Contract):
     """_apply_pagination_borders: the per-page border matrices realise the three-tier hierarchy; every other cell keeps the
     user's border; the page's attributes are a fresh deep copy (caller's objects untouched)."""
@@ -79,12 +82,32 @@ class PaginationBorders(Contract):
             # representative-field abstraction: `type(page_attrs).model_fields` enumerates the fields this harness models (two border
             # matrices, one generic matrix attribute, the one-row border_first/border_last); every other field of the real class is
             # treated by the loop body exactly like one of these
+            # The generic matrix attribute is enumerated under a SYMBOLIC name: any of the real class's nested-list fields other than the
+            # modelled border fields (ANYFIELD), so code that treats fields differently by name is followed for every such name.
             o = st.obj(args[0]) if isinstance(args[0], Ref) else None
             if isinstance(o, RecObj) and o.cls == "TableAttributes":
-                return st.alloc(RecObj("type", {"model_fields": st.alloc(DictObj(items={k: None for k in o.fields}, fresh=True))}, fresh=True))
+                keys = {(self._anyfield if k == GENERIC else k): None for k in o.fields}
+                return st.alloc(RecObj("type", {"model_fields": st.alloc(DictObj(items=keys, fresh=True))}, fresh=True))
             from pyvc.calls import call_builtin
             return call_builtin(I, st, "type", args, kwargs, node)
-        return {"deepcopy": h_deepcopy, "new:BroadcastValue": new_bv, "type": h_type}
+
+        def _named(args):
+            nm = norm_str(args[1]) if len(args) > 1 else None
+            return z3.is_expr(nm) and nm.eq(self._anyfield)
+
+        def h_getattr(I, st, args, kwargs, node):
+            from pyvc.calls import call_builtin
+            if _named(args):
+                return I.get_attr(st, args[0], GENERIC, node)
+            return call_builtin(I, st, "getattr", args, kwargs, node)
+
+        def h_setattr(I, st, args, kwargs, node):
+            from pyvc.calls import call_builtin
+            if _named(args):
+                I.set_attr(st, args[0], GENERIC, args[2], node)
+                return None
+            return call_builtin(I, st, "setattr", args, kwargs, node)
+        return {"deepcopy": h_deepcopy, "new:BroadcastValue": new_bv, "type": h_type, "getattr": h_getattr, "setattr": h_setattr}
     summaries = {"BroadcastValue.update_cell": update_cell_summary}
     truth_vars = {"has_column_headers", "has_footnote_on_page", "has_source_on_page", "footnote_as_table_on_last", "source_as_table_on_last",
                   "has_border_top", "footnote_table_on_page", "source_table_on_page"}
@@ -115,6 +138,11 @@ class PaginationBorders(Contract):
         tattrs = c.alloc(RecObj("TableAttributes", {"border_top": bt, "border_bottom": bb,
                                                     "border_first": one("ta_border_first"), "border_last": one("ta_border_last"),
                                                     "text_font": tf}, pyclass=ta_cls, fresh=False, origin="CALLER"))
+        # ANYFIELD: the name under which the generic matrix attribute is enumerated - any nested-list field of the real TableAttributes class
+        real_fields = [n for n, f in (ta_cls.pyclass if hasattr(ta_cls, "pyclass") else ta_cls).model_fields.items() if "list[list[" in str(f.annotation).replace("typing.", "").replace("List", "list")]
+        names = [n for n in real_fields if n not in ("border_top", "border_bottom", "border_first", "border_last")]
+        self._anyfield = z3.Const("any_matrix_field_name", StrSort)
+        c.requires("generic_attribute_is_one_of_the_real_nested_list_fields", Or(*[self._anyfield == lit(n) for n in names]) if names else z3.BoolVal(False))
         rs = c.fresh("row_start", T.Int)
         c.requires("row_start_nonneg", rs >= 0)
         mx, mm = z3.Ints("mx mm")
